@@ -264,8 +264,20 @@ def _scan_build(node, env):
 
 def _tee_build(node, env, taps, path):
     _, join, branches = node
-    built = [rx.pipe(*build(b, env, taps, path + (('b', j),))) for j, b in enumerate(branches)]
+    built = [_pipeline_form(build(b, env, taps, path + (('b', j),)), path + (j,), allow_list=True) for j, b in enumerate(branches)]
     return rs.ops.tee_map(*built, join=join)
+
+
+def _pipeline_form(ops_, path, allow_list=True):
+    """The documented ways of handing a sub-pipeline to an operator - a list of operators, one composed
+    operator (rx.pipe), a single operator - chosen as a pure function of the position in the program, so that a
+    replay builds the same thing."""
+    k = (len(path) * 5 + sum(x for x in path if isinstance(x, int)) + len(ops_)) % 3
+    if k == 0 and allow_list:
+        return list(ops_)
+    if k == 1 and len(ops_) == 1:
+        return ops_[0]
+    return rx.pipe(*ops_)
 
 
 OPS = {}
@@ -431,6 +443,7 @@ def build_node(node, env=None, taps=None, path=()):
             head = tap(head) if isinstance(head, list) else head       # a log, or a prebuilt tap operator
             tail = tap(tail) if isinstance(tail, list) else tail
             inner = ([head] if head is not None else []) + inner + ([tail] if tail is not None else [])
+        inner = _pipeline_form(inner, path)
         if name == 'group_by':
             return rs.ops.group_by(fn(node[1], env), inner)
         if name == 'roll':
